@@ -1,6 +1,6 @@
 SPEC = dict(
     id="C23",
-    level_text="Lean 4 theorems over the shared model of the CURRENT ClusterFSM (Arc.Model.C22), all at full strength for EVERY history (any commands incl. invalid/duplicate/out-of-order at any log indexes, snapshot+restore anywhere): C23_one_primary (at most one node marked primary), C23_primary_exists (a non-empty primaryWriterID names an existing node marked primary), C23_marked_is_recorded, C23_reregister (AddNode/UpdateNode of an existing id keeps the recorded writer_state whatever the payload says and touches nothing else), C23_rbac_parents / C23_rbac_cascade_index_complete (every team/role/measurement permission/membership has its parents and is listed in the index its parent's cascade walks; invariant PInv through the three nested cascades; Restore re-establishes it for any snapshot). C23_model_quirks_tied re-proves from regenerated source facts that AddNode/UpdateNode keep the recorded writer state, PromoteWriter validates before mutating and RemoveNode clears primaryWriterID. C23_prefix_*_witness keep the pre-fix counterexamples as statements about explicitly named pre-fix functions. The model is diffed line by line against the real FSM on all sequences up to the bound over a 15-letter node alphabet and a 12-letter RBAC alphabet (also after a hierarchy-building prefix) plus directed and random histories; all role and RBAC-orphan monitors are live and silent.",
+    level_text="Lean 4 theorems over the shared model of the CURRENT ClusterFSM (Arc.Model.C22), all at full strength for EVERY history (any commands incl. invalid/duplicate/out-of-order at any log indexes, snapshot+restore anywhere): C23_one_primary (at most one node marked primary), C23_primary_exists (a non-empty primaryWriterID names an existing node marked primary), C23_marked_is_recorded, C23_reregister (AddNode/UpdateNode of an existing id keeps the recorded writer_state whatever the payload says and touches nothing else), C23_rbac_parents / C23_rbac_cascade_index_complete (every team/role/measurement permission/membership has its parents and is listed in the index its parent's cascade walks; invariant PInv through the three nested cascades; Restore re-establishes it for any snapshot). C23_membership_indexes_sound (increasing log indexes): every entry of the three membership indexes points at an existing membership with that team/token, so cascades walk exactly the right memberships. C23_model_quirks_tied re-proves from regenerated source facts that AddNode/UpdateNode keep the recorded writer state, PromoteWriter validates before mutating and RemoveNode clears primaryWriterID. C23_prefix_*_witness keep the pre-fix counterexamples as statements about explicitly named pre-fix functions. The model is diffed line by line against the real FSM on all sequences up to the bound over a 15-letter node alphabet and a 12-letter RBAC alphabet (also after a hierarchy-building prefix) plus directed and random histories; all role and RBAC-orphan monitors are live and silent.",
     level_note="no known findings on the current tree (the five pre-fix keys no longer fire)",
     technique="Lean 4 invariant proof (RoleInv) by induction over histories with restores; witness theorems by evaluation; regenerated source-shape facts; differential correspondence on the real FSM",
     factgen=True,
